@@ -8,6 +8,7 @@ from .. import paths
 from ..core import FUNC, AnalysisError, inert, call_attr, calls_in, const, dotted, is_const, kwarg, norm, slice_parts, text, walk_local
 
 EXPLANATION = [
+    'C20.queued-frames-hold-credits: RFCOMM DLC: rx_credits_needed counts the frames queued for a missing sink as occupied window, the queue is at least as large as the window, and the sink setter empties the queue and calls process_tx().',
     'C20.brsf-reply: AgProtocol._on_brsf formats its +BRSF reply from self.supported_ag_features itself.',
     "C20.empty-parameters: AtCommand.parse_from calls at.parse_parameters only under the truth of the parameter text: a SET command with nothing after '=' has an empty parameter list.",
     'C20.listener-cleanup: every `on/once(event, future.set_result|set_exception)` made by a coroutine of hfp / rfcomm is undone by a remove_listener in a finally of that coroutine, so an abandoned wait leaves no listener that would raise at the next emit (second final result code).',
@@ -1338,7 +1339,32 @@ def brsf_reply(ctx):
         R.check(vals == ['self.supported_ag_features'], rule, f'{AG}._on_brsf | announced value', 'self.supported_ag_features', f'the reply announces `{vals}` while the gateway keeps self.supported_ag_features: after the service level connection the two sides hold different gateway feature sets', p.loc(c))
 
 
+def queued_frames_hold_credits(ctx):
+    """Frames a DLC keeps for a sink that is not attached yet sit in a bounded deque: they keep occupying the receive window
+    (rx_credits_needed counts them), the window is no larger than the deque, and attaching the sink - which empties the
+    deque - triggers process_tx() so that the peer gets its credits back."""
+    R, p = ctx.r, ctx.p
+    rule = 'C20.queued-frames-hold-credits'
+    need = p.find('bumble.rfcomm.DLC.rx_credits_needed')
+    ci = p.cls('bumble.rfcomm.DLC')
+    if need is None or ci is None:
+        R.bad(rule, 'bumble.rfcomm.DLC.rx_credits_needed', 'anchor missing')
+        return
+    counts = [c for c in calls_in(need) if dotted(c.func) == 'len' and c.args and dotted(c.args[0]) == 'self._enqueued_rx_packets']
+    rets = [r for r in walk_local(need) if isinstance(r, ast.Return) and r.value is not None and not is_const(r.value)]
+    R.check(bool(counts) and bool(rets), rule, 'bumble.rfcomm.DLC.rx_credits_needed', 'queued frames count as occupied window', 'rx_credits_needed() ignores the frames queued for a missing sink: the peer keeps getting credits, more than the deque holds arrive and the oldest are dropped - the receiver gets the tail of the stream only', p.loc(need))
+    try:
+        q, mx = p.module_const('bumble.rfcomm', 'DEFAULT_RX_QUEUE_SIZE'), p.module_const('bumble.rfcomm', 'RFCOMM_DEFAULT_MAX_CREDITS')
+    except Exception:
+        q = mx = None
+    R.check(isinstance(q, int) and isinstance(mx, int) and q >= mx, rule, 'bumble.rfcomm | queue size against window', f'queue {q} >= window {mx}', f'the receive queue ({q}) is smaller than the receive window ({mx})', '')
+    setter = next((s_ for s_ in ci.node.body if isinstance(s_, FUNC) and s_.name == 'sink' and any(text(d).endswith('.setter') for d in s_.decorator_list)), None)
+    ok = setter is not None and any(dotted(c.func) == 'self.process_tx' for c in calls_in(setter)) and any(call_attr(c) == 'clear' and dotted(c.func.value) == 'self._enqueued_rx_packets' for c in calls_in(setter))
+    R.check(ok, rule, 'bumble.rfcomm.DLC.sink (setter)', 'hands the queued frames over, empties the queue and lets process_tx() return the credits', 'attaching the sink does not trigger process_tx(): the credits held by the frames that were queued are never returned and the sender stalls', p.loc(setter) if setter is not None else p.loc(ci.node))
+
+
 RULES = [
+    ('C20.queued-frames-hold-credits', queued_frames_hold_credits),
     ('C20.brsf-reply', brsf_reply),
     ('C20.empty-parameters', empty_parameters),
     ('C20.listener-cleanup', listener_cleanup),
